@@ -19,7 +19,7 @@ CONSTANTS MaxItems,     \* bound on the number of body items
 VARIABLE doc
 
 KnobsAll == {"alt", "pre", "post", "blank", "trsp", "op", "cind", "ind", "envOmit", "endOmit", "final"}
-FeatAll == {"block", "target", "section", "annot", "comment", "trail", "zonechild", "dupkey", "cind", "filterkeys"}
+FeatAll == {"block", "target", "section", "annot", "comment", "trail", "zonechild", "dupkey", "cind", "filterkeys", "hoist"}
 
 KeysFor(i) == IF i = 1 THEN {"A"} ELSE IF "dupkey" \in Feat THEN {"A", "B"} ELSE {"B"}
 FilterKeys == {"STATUS", "TESTS"}
@@ -82,7 +82,7 @@ ParentKind(body, d) == ParentKindFrom(body, Len(body), d)
 K(name, dom) == IF name \in Knobs THEN dom ELSE {CHOOSE x \in dom : \A y \in dom : x <= y}   \* knob off => its default (least) value
 SpChoices(nalt, budget, assignLike, opMax, cindOK) ==
   {sp \in [alt : K("alt", 1..nalt), pre : (IF assignLike THEN K("pre", {0, 1}) ELSE {0}),
-           post : (IF assignLike THEN K("post", {0, 1}) ELSE {0}), blank : K("blank", {0, 1}), trsp : K("trsp", {0, 1}),
+           post : (IF assignLike THEN K("post", {0, 1}) ELSE {0}), blank : K("blank", {0, 1, 2}), trsp : K("trsp", {0, 1}),
            op : K("op", 0..opMax), cind : (IF cindOK THEN K("cind", {0, 1}) ELSE {0})] : DevSp(sp) <= budget}
 
 Item(d, k, key, v, tgt, sid, ann, trail, sp) ==
@@ -124,6 +124,8 @@ CommentItems(d, budget) ==
   IF "comment" \in Feat
   THEN {Item(d, "comment", c, None, None, None, None, None, sp) :
           c \in {"c1", "c2"}, sp \in {s \in SpChoices(1, budget, FALSE, 1, "cind" \in Feat) : s.trsp = 0}}
+       \cup (IF "hoist" \in Feat /\ d = 0 /\ doc.body = <<>> /\ ~doc.g.envOmit /\ budget >= 1      \* written above the envelope line
+             THEN {Item(0, "comment", "c1", None, None, None, None, None, [DefSp EXCEPT !.cind = 2])} ELSE {})
   ELSE {}
 
 AddItem ==
